@@ -115,6 +115,15 @@ class C12(Prop):
         if generated and not set(pk) <= set(names):
             out.fail("primary-key-not-columns", "%s: primary_key %r is not a subset of the columns %r; %r" % (tag, pk, names, ddl))
 
+    def again(self, ddl, cfg):
+        ctor, run = loader.split_kwargs(cfg)
+        try:
+            p = loader.make_parser(ddl, **ctor)
+            p.run(**run)
+            return ("ok", p.run(json_dump=True, **run))
+        except Exception as e:
+            return ("exc", type(e).__name__, str(e)[:300])
+
     def evaluate(self, case):
         out = Outcome()
         ddl = self.text(case)
@@ -156,8 +165,15 @@ class C12(Prop):
                 except (TypeError, ValueError) as ex:
                     out.fail("not-json-serialisable", "%s under %r; %r" % (ex, cfg, ddl))
                     continue
-                rj = loader.try_parse(ddl, json_dump=True, **cfg)
+                # same parser object, asked again with json_dump=True (and a fresh object when that differs)
+                rj = self.again(ddl, cfg)
                 out.parses += 1
+                if rj[0] != "ok" or rj[1] != enc:
+                    rj2 = loader.try_parse(ddl, json_dump=True, **cfg)
+                    if rj2[0] == "ok" and rj2[1] == enc:
+                        out.fail("json-dump-on-same-object", "run(**cfg) then run(json_dump=True, **cfg) on one object returns %r, a fresh object the JSON text; cfg %r; %r" % (
+                            str(rj[1])[:120], cfg, ddl))
+                        continue
                 if rj[0] != "ok":
                     out.fail("json-dump-raises", "%s: %s under %r; %r" % (rj[1], rj[2], cfg, ddl))
                 elif rj[1] != enc:
